@@ -762,7 +762,7 @@ func derefsReceiver(f *ssa.Function) bool {
 
 func ruleLockDefer(w *World, r *Report) {
 	r.Rule("LOCK-DEFER", "a state / location lock that is released by a plain call (not by defer) does not enclose code that can panic or that calls out of rulio's control: a hook (function-valued field), the pattern matcher, the JavaScript engine, or a rulio function with an un-exempted may-panic site; a panic in such a section leaves the lock held and the location blocks forever", 6)
-	e := newLocksetEngine(w, guardsStates())
+	e := newLocksetEngine(w, guardsStates(w))
 	// risky functions
 	risky := map[*ssa.Function]string{}
 	isExternalCall := func(in ssa.Instruction) string {
@@ -834,7 +834,7 @@ func ruleLockDefer(w *World, r *Report) {
 		}
 	}
 	locks := map[string]bool{}
-	for _, g := range guardsStates() {
+	for _, g := range guardsStates(w) {
 		locks[g.Lock] = true
 	}
 	n := 0
